@@ -543,7 +543,8 @@ def debug_info(req, app):
     # transform state handlers and default state table to html, users handler
     # from shandlers are preferer
     _tmp_shandlers = {}
-    _tmp_shandlers.update(default_states)
+    for key, val in default_states.items():
+        _tmp_shandlers[key] = val.copy()    # do not touch the global table
     for key, val in app.states.items():
         if key in _tmp_shandlers:
             _tmp_shandlers[key].update(val)
